@@ -65,6 +65,7 @@ def check_case(acc, case, frontend) -> list[dict]:
                 cfg = dict(case.get("cfg") or {})
                 settings = {"myst_" + k: v for k, v in cfg.items()}
                 settings["myst_highlight_code_blocks"] = cfg.get("highlight_code_blocks", True)
+                settings.update(case.get("raw_settings") or {})
                 src = tmp + "/main.md"
                 d0, w0 = front.docutils_parse(text, source_path=src, settings=settings)
                 phases.append(("parsed", d0, w0, False))
@@ -250,8 +251,21 @@ def hostile8(draw):
     return c
 
 
+@st.composite
+def restricted_case(draw):
+    """A document with several raw-producing / file-reading constructs under the docutils security switches (docutils
+    front end only): the nodes put in place of the refused constructs are tree nodes like any other."""
+    pieces = draw(st.lists(st.sampled_from([
+        "<div>\nhtml block\n</div>", "para <b>inline</b> html <i>twice</i>", "hard  \nbreak and another  \nbreak", "a\\\nb",
+        "```{raw} html\n<p>raw</p>\n```", "```{eval-rst}\n.. raw:: html\n\n   <p>x</p>\n```", "~~strike~~ and ~~again~~",
+        "```{include} nosuch.md\n```", "```{csv-table}\n:file: nosuch.csv\n```", "> <span>in quote</span>", "- <br> in list\n- <hr>",
+        "| <b>cell</b> | <i>c2</i> |\n|---|---|\n| x | y |", "plain paragraph", "# Heading <em>html</em>"]), min_size=2, max_size=6))
+    return {"gen": "restricted", "text": "\n\n".join(pieces) + "\n", "cfg": {"enable_extensions": ["strikethrough"]},
+            "raw_settings": {"raw_enabled": draw(st.booleans()), "file_insertion_enabled": draw(st.booleans())}}
+
+
 def all_cases():
-    return st.one_of(c01.doc_case(), c01.doc_case(), ids_case(), ids_case(), table_case(), hostile8())
+    return st.one_of(c01.doc_case(), c01.doc_case(), ids_case(), ids_case(), table_case(), hostile8(), restricted_case())
 
 
 def sub_docutils(acc, shard, nshards, tier, seed):
